@@ -416,6 +416,45 @@ def run(ctx):
                    "the PTO are inflated arbitrarily" % seen[:5])
             ctx.ob("R10", "%s|RTT sampled only when an ack-eliciting packet was newly acknowledged" % oa.short, ae_ok, oa.where(t["line"]),
                    "guarded by include_ack_eliciting: %s" % ae_ok)
+    # ---------------------------------------------------------------- R11
+    ctx.rule("R11", "the acknowledgement delay that is subtracted from an RTT sample is the value that was tested: in Rtt::update the "
+                    "subtrahend of `latest_rtt - d` is the same variable as the d in the guard `latest_rtt >= min_rtt + d` (the value "
+                    "clamped to max_ack_delay) — a peer-chosen delay never reaches a Duration subtraction unguarded")
+    ru = ctx.anchor("R11", "qcongestion::rtt::Rtt::update")
+    if ru:
+        subs = [(i, t) for i, t in ru.calls() if re.search(r"Duration as core::ops::arith::Sub>::sub$", callee(t))]
+        ctx.floor("R11", "Duration subtractions in Rtt::update", len(subs), 1)
+
+        def root_of(o):
+            q = op_place(o)
+            if q is None or len(q) != 1:
+                return None
+            l = q[0]
+            for _ in range(6):
+                ds = ru.defs_of(l)
+                if len(ds) != 1 or ds[0][1] == "term":
+                    return l
+                rv = ds[0][2]
+                q2 = op_place(rv[1]) if rv[0] == "use" else None
+                if q2 is None or len(q2) != 1:
+                    return l
+                l = q2[0]
+            return l
+        for (i, t) in subs:
+            sub_root = root_of(t["args"][1])
+            guard_roots = set()
+            for gi, gt in ru.calls():
+                if re.search(r"PartialOrd(<.*>)?>?::(ge|gt|le|lt)$", callee(gt)) and ru.dominates(gi, i) and len(gt["dest"]) == 1 and \
+                        (runs_only_when(ru, gt["dest"][0], True, i) or runs_only_when(ru, gt["dest"][0], False, i)):
+                    for a in gt["args"]:
+                        for og in local_origins(ru, a):
+                            if og[0] == "call" and re.search(r"Duration as core::ops::arith::Add>::add$", callee(og[2])):
+                                for a2 in og[2]["args"]:
+                                    guard_roots.add(root_of(a2))
+            ctx.ob("R11", "%s|the subtracted delay is the guarded one" % ru.short, sub_root is not None and sub_root in guard_roots, ru.where(t["line"]),
+                   "subtrahend variable _%s; variables added to min_rtt in the dominating comparison: %s — if the guard tests the clamped "
+                   "delay and the subtraction uses the raw ACK Delay field, one ACK with a delay larger than the sample panics the "
+                   "congestion controller (Duration underflow) while its mutex is held" % (sub_root, sorted(x for x in guard_roots if x is not None)))
     # ---------------------------------------------------------------- R7
     ctx.rule("R7", "a packet is declared lost only if it is still in flight and (sent before the time threshold or at least "
                    "packet_threshold packets older than the largest acknowledged): the state write is reachable only through "
